@@ -23,7 +23,7 @@ func jobC07(c *rt.Ctx) {
 		{ref.Ctx, "a"}, {ref.Ctx, "b"}, {ref.Ctx, "a\x00"}, {ref.Ctx, "aa"}, {ref.Ctx, a254}, {ref.Ctx, a255}, {ref.Ctx, a255f},
 		{ref.Ph, ""}, {ref.Ph, "a"}, {ref.Ph, "b"}, {ref.Ph, a255},
 	}
-	modes := []string{"single", "batch4", "batch65", "batch4-homogeneous", "batch68-tail-homogeneous"}
+	modes := []string{"single", "batch4", "batch65", "batch4-homogeneous", "batch68-tail-homogeneous", "batch8-malformed-later", "batch3"}
 	nk := 2
 	for si := range pairs {
 		for vi := range pairs {
@@ -87,11 +87,27 @@ func jobC07(c *rt.Ctx) {
 								}
 							}
 						default:
-							n, pos := 4, 2
-							if mode == "batch65" {
+							n, pos, mal := 4, 2, -1
+							switch mode {
+							case "batch65":
 								n, pos = 65, 64
+							case "batch3":
+								n, pos = 3, 1 // below the batching threshold
+							case "batch8-malformed-later":
+								// a malformed entry BEHIND the entry: the pre-check loops stop there, the entries
+								// in front of it are settled by the fallback
+								n, pos, mal = 8, 1, 5
 							}
-							entries := batchWith(t, pos, n, vv)
+							entries := append([]triple{}, batchWith(t, pos, n, vv)...)
+							if mal >= 0 {
+								m := entries[mal]
+								if (ki+si+vi)%2 == 0 {
+									m.sig = append([]byte{}, m.sig[:63]...)
+								} else {
+									m.key = append([]byte{}, m.key[:31]...)
+								}
+								entries[mal] = m
+							}
 							var valid []bool
 							var err error
 							_, valid, err, pv = implBatch(entries, vv, mi == 1, rt.NewRng(c.Seed, "c07"))
@@ -100,8 +116,8 @@ func jobC07(c *rt.Ctx) {
 							} else {
 								got = valid[pos]
 								for i, v := range valid {
-									if i != pos && !v {
-										pv = "filler rejected"
+									if i != pos && v != (i != mal) {
+										pv = fmt.Sprintf("entry %d reported %v", i, v)
 									}
 								}
 							}
